@@ -54,6 +54,73 @@ pub fn generate(src: &str, step_limit: u64) -> (GenOutcome, HookCounters) {
     (out, hc)
 }
 
+/// A process environment like the one a Cargo build script runs in (kiki's documented place of use is
+/// a `build.rs`), with plausible values drawn at random, plus every environment variable whose name
+/// occurs in kiki's own sources next to an `env::var` / `env!` call.  `generate` is specified as a function
+/// of its text: none of this may matter.
+pub fn build_script_env(rng: &mut crate::rng::Rng) -> Vec<(String, String)> {
+    let mut v: Vec<(String, String)> = vec![];
+    let mut put = |k: &str, vals: &[&str], rng: &mut crate::rng::Rng| {
+        if rng.chance(0.8) {
+            v.push((k.to_string(), rng.pick_str(vals).to_string()));
+        }
+    };
+    put("OPT_LEVEL", &["0", "1", "2", "3", "s", "z"], rng);
+    put("PROFILE", &["debug", "release"], rng);
+    put("DEBUG", &["true", "false", "0", "1", "2"], rng);
+    put("TARGET", &["x86_64-unknown-linux-gnu", "wasm32-unknown-unknown", "thumbv7em-none-eabihf", "x86_64-pc-windows-msvc"], rng);
+    put("HOST", &["x86_64-unknown-linux-gnu", "aarch64-apple-darwin"], rng);
+    put("OUT_DIR", &["/tmp/kv-out", "C:\\out", ""], rng);
+    put("NUM_JOBS", &["1", "16"], rng);
+    put("CARGO_CFG_TARGET_OS", &["linux", "windows", "none", "macos"], rng);
+    put("CARGO_CFG_TARGET_POINTER_WIDTH", &["64", "32", "16"], rng);
+    put("CARGO_CFG_TARGET_ENDIAN", &["little", "big"], rng);
+    put("CARGO_CFG_DEBUG_ASSERTIONS", &["", "1"], rng);
+    put("CARGO_PKG_NAME", &["demo", "kiki"], rng);
+    put("CARGO_PKG_VERSION", &["0.1.0", "9.9.9-rc.1"], rng);
+    put("CARGO_MANIFEST_DIR", &["/tmp/kv-demo"], rng);
+    put("CARGO_FEATURE_STD", &["1"], rng);
+    put("CARGO_ENCODED_RUSTFLAGS", &["", "-Copt-level=z"], rng);
+    put("RUSTFLAGS", &["", "-C opt-level=s", "-D warnings"], rng);
+    put("RUST_BACKTRACE", &["0", "1", "full"], rng);
+    put("RUST_LOG", &["debug", "trace", "kiki=trace"], rng);
+    put("NO_COLOR", &["1"], rng);
+    put("TERM", &["dumb", "xterm-256color"], rng);
+    put("LANG", &["C", "en_US.UTF-8", "tr_TR.UTF-8", "de_DE.ISO-8859-1"], rng);
+    put("LC_ALL", &["C", "tr_TR.UTF-8"], rng);
+    put("TZ", &["UTC", "Asia/Kolkata"], rng);
+    put("SOURCE_DATE_EPOCH", &["0", "1700000000"], rng);
+    put("CI", &["true"], rng);
+    put("DOCS_RS", &["1"], rng);
+    put("HOME", &["/nonexistent", "/root"], rng);
+    let d = crate::gtext::repo_dictionary();
+    const VALUES: &[&str] = &["", "0", "1", "2", "true", "false", "s", "z", "debug", "release", "Debug", "Debug,PartialEq", "Clone, Debug", "yes", "no", "all", "x", "on", "off"];
+    for name in &d.env_vars {
+        if name.chars().all(|c| c.is_ascii_alphanumeric() || c == '_') {
+            let val = if !d.literals.is_empty() && rng.chance(0.2) { rng.pick(&d.literals).clone() } else { rng.pick_str(VALUES).to_string() };
+            v.push((name.clone(), val));
+        }
+    }
+    v
+}
+
+/// `generate` with the given variables set in the process environment (restored afterwards).  Only
+/// called where no other thread of the process is running.
+pub fn generate_in_env(src: &str, step_limit: u64, env: &[(String, String)]) -> (GenOutcome, HookCounters) {
+    let saved: Vec<(String, Option<std::ffi::OsString>)> = env.iter().map(|(k, _)| (k.clone(), std::env::var_os(k))).collect();
+    for (k, v) in env {
+        std::env::set_var(k, v);
+    }
+    let r = generate(src, step_limit);
+    for (k, old) in saved {
+        match old {
+            Some(o) => std::env::set_var(&k, o),
+            None => std::env::remove_var(&k),
+        }
+    }
+    r
+}
+
 pub fn err_kind(e: &KikiErr) -> &'static str {
     match e {
         KikiErr::Lex(..) => "Lex",
